@@ -460,6 +460,9 @@ var c20errOnlyRe = regexp.MustCompile(`^\S+: err:[a-z-]+ -> err:[a-z-]+$`)
 // c20TagWhat refines c20Tag with what was observed.
 func c20TagWhat(f c20Fail, p c20Pkg) string {
 	class, what := f.class, f.what
+	if f.sem == c20SemLitOperand {
+		return "/" + f.sem
+	}
 	switch class {
 	case "eval-changed":
 		// only the error CLASS at some paths differs (incomplete <-> eval)?
